@@ -3,6 +3,7 @@ from common import *
 import tier_a
 import tier_b
 import props_b
+import tier_c
 
 
 def c12(tier):
@@ -32,10 +33,10 @@ def c04(tier):
                      "preemption granularity = every shim operation (mutex, condvar, state-byte atomic) plus explicit points inside managed steps, natives and the operation body"])
 
 
-CHECKS = {"C12": c12, "C04": c04, "C03": props_b.c03, "C09": props_b.c09_tier_b}
+CHECKS = {"C12": c12, "C04": c04, "C03": props_b.c03, "C09": props_b.c09_tier_b, "C14": tier_c.c14}
 REPLAY = {"C12": lambda path: tier_a.replay_tier_a("term", path),
           "C04": lambda path: tier_a.replay_tier_a("stw", path),
-          "C03": tier_b.replay_file, "C09": tier_b.replay_file}
+          "C03": tier_b.replay_file, "C09": tier_b.replay_file, "C14": tier_c.c14_replay}
 
 
 def main(argv):
